@@ -82,6 +82,11 @@ func (in *Interp) exec(fr *frame, ins ssa.Instruction) {
 				in.unsupported("symbolic index into array of non-scalars")
 			}
 			fr.loc[x] = copyVal(a.f[k].v)
+		case *StrV:
+			in.boundsCheck(idx, a.len, "string index in "+fr.fn.String())
+			fr.loc[x] = a.node.Read(Bin("bvadd", a.off, idx))
+		default:
+			in.unsupported("index on %T", a)
 		}
 	case *ssa.Slice:
 		fr.loc[x] = in.slice(fr, x)
@@ -526,7 +531,16 @@ func (in *Interp) indexAddr(fr *frame, x *ssa.IndexAddr) Value {
 	case *SliceG:
 		k, ok := constInt(idx)
 		if !ok {
-			in.unsupported("symbolic index into slice of non-scalars")
+			// case split on the concrete position
+			conds := make([]*Term, a.len+1)
+			for i := 0; i < a.len; i++ {
+				conds[i] = Eq(idx, BV(64, int64(i)))
+			}
+			conds[a.len] = Not(And(Cmp("bvsle", BV(64, 0), idx), Cmp("bvslt", idx, BV(64, int64(a.len)))))
+			k = in.choose(conds)
+			if k == a.len {
+				in.goPanic("index out of range (generic slice) in " + fr.fn.String())
+			}
 		}
 		if k < 0 || k >= a.len {
 			in.goPanic("index out of range (generic slice) in " + fr.fn.String())
